@@ -232,6 +232,41 @@ func HasDotSegment(p string) bool {
 	return false
 }
 
+// IsUnsafeKey reports whether an object key would not be used as an
+// opaque name by a file system backend: "." and ".." elements and empty
+// elements (a leading "/" or "//"; a trailing "/" names a directory object
+// and is fine) are resolved away, so the key would alias another object,
+// and keys below the gateway's own temp directory address its internal
+// files.
+func IsUnsafeKey(key string) bool {
+	els := strings.Split(key, "/")
+	for i, el := range els {
+		if el == "." || el == ".." {
+			return true
+		}
+		if el == "" && i != len(els)-1 {
+			return true
+		}
+	}
+	return els[0] == ".sgwtmp"
+}
+
+// IsUnsafePath is IsUnsafeKey for a request path "/<bucket>/<key>"
+func IsUnsafePath(p string) bool {
+	p = strings.TrimPrefix(p, "/")
+	bucket, key, found := strings.Cut(p, "/")
+	if bucket == "." || bucket == ".." {
+		return true
+	}
+	if !found || key == "" {
+		return false
+	}
+	if bucket == "" {
+		return true
+	}
+	return IsUnsafeKey(key)
+}
+
 func IsValidBucketName(bucket string, debug bool) bool {
 	if len(bucket) < 3 || len(bucket) > 63 {
 		debuglogger.Logf("bucket name length should be in 3-63 range, got: %v\n", len(bucket))
